@@ -10,7 +10,7 @@ if os.path.exists(r1):
     keep = True
     for line in open(r1).read().splitlines():
         if line.startswith("=== "):
-            keep = "x-" not in line
+            keep = ("x-" not in line) and ("y-" not in line)
         if keep:
             log += line + "\n"
 if os.path.exists(r23):
@@ -54,7 +54,7 @@ for r in rows:
     base, origin, s = describe(r["name"])
     s = (s[:150] + "…") if len(s) > 150 else s
     s = s.replace("|", "/").replace("\n", " ")
-    target = base.split("-")[0].rstrip("x") if base.startswith("C") else None
+    target = base.split("-")[0].rstrip("xy") if base.startswith("C") else None
     tc = ""
     if target:
         tc = "yes" if target in r["caught"] else "**no**"
